@@ -281,29 +281,29 @@ T_VARIANTS = ((10, 11, 12), (-3, -2, -1), (-1, 0, 1), (0, 2, 5), (1, 3, 4), (-4,
 def path_universe(tier, seed, heavy=True):
     """yield (cls, relation, tag).  The spaces, in this order:
       A  DynGraph, nodes {1,2,3}, instants {0,1,2}: every presence relation (511)                     -- complete
-      B  DynDiGraph, nodes {1,2,3}, instants {0,1,2}: every relation with <= 2 (quick) / <= 3 (thorough) ordered
-         pairs ever present (777 / 7637)                                                               -- complete
+      B  DynDiGraph, nodes {1,2,3}, instants {0,1,2}: quick: every relation with <= 2 ordered pairs ever present (777);
+         thorough: every relation with <= 3 ordered pairs present and <= 5 (pair, instant) cells (5082) -- complete
       C  self-loops: nodes {1,2,3}, pairs (1,1),(1,2),(2,3) [+ (2,1),(2,2) directed], instants {0,1,2}, every relation
-         in which a self-loop is present, <= 4 (directed 3) cells (quick) / all (thorough)             -- complete
-      D  the relations of A / B with <= 2 cells (quick) / <= 3 cells (thorough) moved to the instant sets
+         in which a self-loop is present; quick: <= 4 cells (directed <= 3); thorough: all (directed <= 4 cells) -- complete
+      D  the relations of A / B with <= 2 cells (thorough, undirected: <= 3 cells) moved to the instant sets
          (10,11,12) (-3,-2,-1) (-1,0,1) (0,2,5) (1,3,4) (-4,-2,-1) and to string ids 'a','b','c'        -- complete
       E  seeded random relations: directed 3 nodes x 3 instants with >= 3 pairs; both classes 4 nodes x 4 instants
-         (quick: 100 + 100) ; thorough adds 5 nodes x 5 instants                                       -- sampled
+         (quick: 100 + 100; thorough 1000 + 1000, plus 300 on 5 nodes x instants (0,1,2,3,5))          -- sampled
     """
     rng = random.Random(seed * 104729 + 7)
     N3 = (1, 2, 3)
     A = all_relations(und_pairs(N3), T0)
     for r in A:
         yield 'DynGraph', r, 'A'
-    B = all_relations(dir_pairs(N3), T0, max_present=2 if tier == 'quick' else 3)
+    B = all_relations(dir_pairs(N3), T0, max_present=2 if tier == 'quick' else 3, max_cells=None if tier == 'quick' else 5)
     for r in B:
         yield 'DynDiGraph', r, 'B'
     for cls, pairs in (('DynGraph', [(1, 1), (1, 2), (2, 3)]), ('DynDiGraph', [(1, 1), (1, 2), (2, 1), (2, 3), (2, 2)])):
-        for r in all_relations(pairs, T0, max_cells=(4 if cls == 'DynGraph' else 3) if tier == 'quick' else None):
+        for r in all_relations(pairs, T0, max_cells=(4 if cls == 'DynGraph' else 3) if tier == 'quick' else (None if cls == 'DynGraph' else 4)):
             if any(a == b for (a, b) in r):
                 yield cls, r, 'C'
     for cls, base in (('DynGraph', A), ('DynDiGraph', B)):
-        small = [r for r in base if sum(map(len, r.values())) <= (2 if tier == 'quick' else 3)]
+        small = [r for r in base if sum(map(len, r.values())) <= (2 if tier == 'quick' or cls == 'DynDiGraph' else 3)]
         for T in T_VARIANTS:
             tmap = dict(zip(T0, T))
             for r in small:
@@ -312,7 +312,7 @@ def path_universe(tier, seed, heavy=True):
             yield cls, rename(r, STR), 'D'
     if not heavy:
         return
-    n = 100 if tier == 'quick' else 1500
+    n = 100 if tier == 'quick' else 1000
     for _ in range(n):
         r = random_relation(rng, dir_pairs(N3), T0, rng.choice((0.3, 0.5)))
         if len(r) >= 3:
@@ -325,7 +325,7 @@ def path_universe(tier, seed, heavy=True):
             yield cls, r, 'E'
     if tier != 'quick':
         N5, T5 = (1, 2, 3, 4, 5), (0, 1, 2, 3, 5)
-        for _ in range(400):
+        for _ in range(300):
             cls = rng.choice(('DynGraph', 'DynDiGraph'))
             r = random_relation(rng, und_pairs(N5) if cls == 'DynGraph' else dir_pairs(N5), T5, rng.choice((0.1, 0.18)))
             if r:
@@ -524,7 +524,7 @@ def c12_eval(G, ctx, fn, u=None, v=None, start=None, end=None, min_t=None):
 @_masking
 def c12_paths_genuine(tier, seed):
     col = Collector('spaces A-E of path_universe (A: all 511 DynGraph relations on nodes {1,2,3} x instants {0,1,2}; B: all DynDiGraph relations '
-                    'with <=2 (quick) / <=3 (thorough) ordered pairs present; C: self-loop relations; D: small relations moved to shifted, '
+                    'with <=2 ordered pairs present (thorough: <=3 pairs and <=5 cells); C: self-loop relations; D: small relations moved to shifted, '
                     'negative, gapped instant sets and to string ids; E: seeded random 3x3 directed, 4x4 and (thorough) 5x5 relations), each '
                     'built by one point/interval add per maximal run; x every u in the graph (+ an absent id), v in {None, u, other nodes, '
                     'absent id}, every window (None or integer bounds, start<=end) inside [first id, last id]; all_time_respecting_paths for '
@@ -554,7 +554,7 @@ def c12_paths_genuine(tier, seed):
             for check, detail in dict(pr).items():
                 kinds.add(check, cls, h, detail, fn='all', start=s, end=e, min_t=m)
     kinds.flush()
-    res = col.result(bound='<=3 nodes x 3 instants complete (directed: <=2/3 present pairs), instant sets 0-based / shifted / negative / gapped, '
+    res = col.result(bound='<=3 nodes x 3 instants complete (directed: <=2 present pairs; thorough <=3 pairs and <=5 cells), instant sets 0-based / shifted / negative / gapped, '
                            'int and string ids; random up to 4x4 (quick) / 5x5 (thorough)')
     res['coverage']['skipped_states_kernel_disagrees'] = skipped
     return res
@@ -695,7 +695,7 @@ def c13_paths_complete(tier, seed):
             for check, detail in pr:
                 kinds.add(check, cls, h, detail, fn='all', start=s, end=e, min_t=m)
     kinds.flush()
-    res = col.result(bound='<=3 nodes x 3 instants complete (directed: <=2/3 present pairs), instant sets 0-based / shifted / negative / gapped, '
+    res = col.result(bound='<=3 nodes x 3 instants complete (directed: <=2 present pairs; thorough <=3 pairs and <=5 cells), instant sets 0-based / shifted / negative / gapped, '
                            'int and string ids; random up to 4x4 (quick) / 5x5 (thorough)')
     res['coverage']['skipped_states_kernel_disagrees'] = skipped
     return res
@@ -898,7 +898,8 @@ def dag_problems(G, ctx, u, v, start, end):
 
 
 def c15_universe(tier, seed):
-    """spaces A, B, C, D of path_universe without the random part, plus instant sets for *every* relation of A with <= 4 cells"""
+    """spaces A, B, C, D of path_universe (no random part); thorough adds 600 seeded random 4-node relations, self-loops
+    allowed, on the instant set (-2,0,1,3)"""
     for x in path_universe(tier, seed, heavy=False):
         yield x
     if tier != 'quick':
@@ -912,7 +913,7 @@ def c15_universe(tier, seed):
 
 
 def c15_temporal_dag(tier, seed):
-    col = Collector('spaces A-D of path_universe (complete: all DynGraph relations on 3 nodes x 3 instants, DynDiGraph with <=2/3 present pairs, '
+    col = Collector('spaces A-D of path_universe (complete: all DynGraph relations on 3 nodes x 3 instants, DynDiGraph with <=2 present pairs (thorough <=3 pairs, <=5 cells), '
                     'self-loop relations, small relations on the instant sets (10,11,12) (-3,-2,-1) (-1,0,1) (0,2,5) (1,3,4) (-4,-2,-1) and with '
                     'string ids; thorough adds 600 seeded random 4-node relations on instants (-2,0,1,3)); the two graphs without snapshots '
                     '(fresh, add_node only); x every root u in the graph, v in {None, every node, an absent id}, every window with start, end in '
@@ -948,7 +949,7 @@ def c15_temporal_dag(tier, seed):
                     for check, detail in dict(pr).items():
                         kinds.add(check, cls, h, detail, u=u, v=v, start=s, end=e)
     kinds.flush()
-    res = col.result(bound='<=3 nodes x 3 instants complete (directed: <=2/3 present pairs); 0-based, shifted, negative, gapped instant sets; int and string ids')
+    res = col.result(bound='<=3 nodes x 3 instants complete (directed: <=2 present pairs; thorough <=3 pairs and <=5 cells); 0-based, shifted, negative, gapped instant sets; int and string ids')
     res['coverage']['skipped_states_kernel_disagrees'] = skipped
     return res
 
@@ -1130,8 +1131,8 @@ def labellings(nodes, rng, n_mixed):
 @_masking
 def c20_conformity(tier, seed):
     col = Collector('labelled DynGraphs: every presence relation over nodes {1,2,3} x instants {0,1,2} with <= 3 (quick) / <= 5 (thorough) '
-                    '(pair, instant) cells (129 / 381 relations, complete), seeded random relations beyond (quick 60 on 3x3, thorough 400 on 3x3 and '
-                    '4 nodes x 4 instants), one relation set moved to instants (3,4,6); labels: one static categorical attribute `lab` with the '
+                    '(pair, instant) cells (129 / 381 relations, complete), seeded random relations beyond (quick 60 on 3x3, thorough 200 on 3x3 and '
+                    '200 on 4 nodes x 4 instants), one relation set moved to instants (3,4,6); labels: one static categorical attribute `lab` with the '
                     'homogeneous labelling and 2 (quick) / 4 (thorough) seeded mixed labellings over {x,y,z}, and for every 4th graph a second '
                     'attribute `grp` with profile_size 2; every start in [first id, last id], delta in {0,1,2}, alphas [0.5,1,2.5], the five path '
                     'types.  Checked: None iff no snapshot id in [start,start+delta]; one entry per alpha and profile; scored nodes = nodes with an '
@@ -1143,10 +1144,10 @@ def c20_conformity(tier, seed):
     kinds = Kinds(col)
     N3 = (1, 2, 3)
     rels = [('A', r) for r in all_relations(und_pairs(N3), T0, max_cells=3 if tier == 'quick' else 5)]
-    for _ in range(60 if tier == 'quick' else 400):
+    for _ in range(60 if tier == 'quick' else 200):
         rels.append(('E', random_relation(rng, und_pairs(N3), T0, 0.6)))
     if tier != 'quick':
-        for _ in range(400):
+        for _ in range(200):
             rels.append(('E', random_relation(rng, und_pairs((1, 2, 3, 4)), (0, 1, 2, 3), 0.3)))
     tmap = {0: 3, 1: 4, 2: 6}
     rels += [('D', {p: frozenset(tmap[q] for q in S) for p, S in r.items()}) for tag, r in rels[:40]]
